@@ -87,13 +87,13 @@ COMPOSE_SECTION = [
 
 RULES = {
     "composeinfo": COMPOSE_SECTION + [
-        ("Release", "type", ["GA", "bogus", None, "", "Updates"], "common.RELEASE_TYPES (known release types); case-folding happens on load only"),
+        ("Release", "type", ["GA", "bogus", None, "", "Updates", "tech-preview", "updates-test", "beta"], "common.RELEASE_TYPES (known release types); case-folding happens on load only"),
         ("Release", "version", ["1.", "1..2", "1a", "", None, 7, "11.."] + BAD_NUMERIC_VERSIONS, "common.RELEASE_VERSION_RE doc: any string or [0-9] separated with dots"),
         ("Release", "name", NOT_A_STRING, "attribute doc: (str) release name"),
         ("Release", "short", NOT_A_STRING, "attribute doc: (str) release short name"),
         ("Release", "is_layered", NOT_A_BOOL, "attribute doc: (bool=False)"),
         ("Release", "internal", NOT_A_BOOL, "attribute doc: (bool=False)"),
-        ("BaseProduct", "type", ["bogus", None, "GA"], "common.RELEASE_TYPES"),
+        ("BaseProduct", "type", ["bogus", None, "GA", "tech-preview"], "common.RELEASE_TYPES"),
         ("BaseProduct", "version", ["1.", "1..2", "1a", None], "RELEASE_VERSION_RE"),
         ("BaseProduct", "name", NOT_A_STRING, "attribute doc: (str)"),
         ("Variant", "id", ["a-b", "a b", "", None, "x.y"] + BAD_VARIANT_IDS, "attribute doc: variant ID; validator comment ^[a-zA-Z0-9]+$ (dash separates UID parts)"),
